@@ -2115,6 +2115,8 @@ def serialize_tensor_into(
     if isinstance(from_, TensorProtoTensor):
         # Directly copy from the tensor proto if it is available
         tensor_proto.CopyFrom(from_.raw)
+        # The metadata props of the IR tensor are authoritative; do not keep the copied entries as well
+        tensor_proto.ClearField("metadata_props")
         if from_.metadata_props:
             _serialize_metadata_props_into(tensor_proto.metadata_props, from_.metadata_props)
         return
